@@ -114,6 +114,8 @@ def tabPlOfJson (j : Json) : Except String TabPl := do
 * `resolveprod {prod, ex}` → `Product(...).resolvePaths()` (what `ProductStack.addProduct` caches)
 * `glue {root, name, version, flavor, dir:{kind,..}, table:{kind,..}}` → the Product `Eups.declare` builds, and
   the locations a reader at `new_root` must report
+* `dbop {name, versions:[[v,text]..], chains:[[tag,text]..], dbop:{kind: undeclare|unassign|assign|retag, flavor, version?, tag?, who?, now?}}`
+  → the texts of the product's records after `Database.undeclare / unassignTag / assignTag`
 * `chainset {old_text|null, name, tag, flavor, version, who, now}` / `chainremove {old_text, name, tag, flavor}` -/
 def handle : Handler := fun j => do
   let op ← (← j.getObjVal? "op").getStr?
@@ -197,6 +199,43 @@ def handle : Handler := fun j => do
       match printChain r with
       | .ok t => pure (Json.mkObj [("rec", crecToJson r), ("text", optText t)])
       | .error e => pure (errJson e)
+  | "dbop" =>
+    -- the records of one product directory as texts; one database-layer operation; the texts afterwards
+    let parseAll {α : Type} (f : Str → Except Err α) (k : String) : Except String (Except Err (List (Str × α))) := do
+      let items ← jarr j k
+      let mut out : List (Str × α) := []
+      for e in items do
+        match (← e.getArr?).toList with
+        | [n, t] =>
+          match f (Str.ofString (← t.getStr?)) with
+          | .ok r => out := out ++ [(Str.ofString (← n.getStr?), r)]
+          | .error er => return .error er
+        | _ => throw "record entry"
+      return .ok out
+    match ← parseAll (parseVersion none none) "versions", ← parseAll (parseChain none none) "chains" with
+    | .error e, _ => pure (errJson e)
+    | _, .error e => pure (errJson e)
+    | .ok vs, .ok cs =>
+      let d : PDir := { versions := vs, chains := cs }
+      let o ← j.getObjVal? "dbop"
+      let kind ← (← o.getObjVal? "kind").getStr?
+      let flavor ← jstr o "flavor"
+      let d' ← match kind with
+        | "undeclare" => pure (d.undeclare (← jstr o "version") flavor)
+        | "unassign" => pure (d.unassignTag (← jstr o "tag") flavor)
+        | "assign" => pure (d.assignTag (← jstr j "name") (← jstr o "tag") (← jstr o "version") flavor (← jstr o "who") (← jstr o "now"))
+        | "retag" => pure ((d.unassignTag (← jstr o "tag") flavor).assignTag (← jstr j "name") (← jstr o "tag")
+                            (← jstr o "version") flavor (← jstr o "who") (← jstr o "now"))
+        | k => throw s!"dbop {k}"
+      let vt := d'.versions.map fun (n, r) => match printVersion r with
+        | .ok (some t) => Json.arr #[ofStr n, ofStr t]
+        | .ok none => Json.arr #[ofStr n, Json.null]
+        | .error e => Json.arr #[ofStr n, errJson e]
+      let ct := d'.chains.map fun (n, r) => match printChain r with
+        | .ok (some t) => Json.arr #[ofStr n, ofStr t]
+        | .ok none => Json.arr #[ofStr n, Json.null]
+        | .error e => Json.arr #[ofStr n, errJson e]
+      pure (Json.mkObj [("versions", Json.arr vt.toArray), ("chains", Json.arr ct.toArray)])
   | _ => throw s!"unknown op {op}"
 
 end EupsModel.Drv.C16
